@@ -11,6 +11,8 @@ import (
 
 // Ctx carries the loaded program plus the derived call graph and entry points.
 type Ctx struct {
+	wrappers map[*ssa.Function]*storeWrap
+	keyPats []keyPattern
 	memoWhy           map[*ssa.Lookup]string
 	memos             map[*ssa.Lookup]*memoInfo
 	expReads          map[string]map[string][]prefixUse
